@@ -108,10 +108,13 @@ def classify(mode, f0, fails):
         return "hierarchy-reference-mapped-one-to-many"
     if all(f.get("only_alt_mapped_cycle") for f in fails):
         return "alt-mapped-object-in-cycle-left-as-mapping"
+    if all(f.get("only_deep_chain_recursion") for f in fails):
+        return "deep-reference-chain-recursion-limit"
     return None
 
 
 def witnesses():
     from checks import c05
     return {"alt-mapped-object-in-cycle-left-as-mapping": {"handwritten": True, "seed": 1, "n": 120},
-            "init-false-fields-not-restored": {"seed": 3, "n": 30, "spec": c05.NO_INIT_SPEC}}
+            "init-false-fields-not-restored": {"seed": 3, "n": 30, "spec": c05.NO_INIT_SPEC},
+            "deep-reference-chain-recursion-limit": {"seed": 5, "n": 3, "spec": c05.CHAIN_SPEC}}
